@@ -321,7 +321,32 @@ func taskName(i int) string { return fmt.Sprintf("t%d:w-*", i) }
 // value through a sh: variable (so that only the fully compiled task distinguishes the calls)
 func (p *Prog) viaShVar(i int) bool {
 	t := p.Tasks[i]
-	return t.Run == "when_changed" && i%2 == 1 && len(t.Cmds) > 0 && t.Cmds[0].Kind == "shell" && len(t.Deps) == 0
+	return t.Run == "when_changed" && i%2 == 1 && !p.viaEnv(i) && len(t.Cmds) > 0 && t.Cmds[0].Kind == "shell" && len(t.Deps) == 0
+}
+
+// viaEnv: every third when_changed task that only has shell commands receives its value through
+// its env: block alone (the command texts mention $E, never {{.V}})
+func (p *Prog) viaEnv(i int) bool {
+	t := p.Tasks[i]
+	if t.Run != "when_changed" || i%3 != 2 || len(t.Deps) > 0 || len(t.Cmds) == 0 {
+		return false
+	}
+	for _, c := range t.Cmds {
+		if c.Kind != "shell" && c.Kind != "dshell" {
+			return false
+		}
+	}
+	return true
+}
+
+// calleeName: the name a call uses for its target. A when_changed target is named by its own key
+// only (its identity covers every variable it is called with, MATCH included, so the call site
+// must not leak into the name); the harness attributes its lines to a call site by goroutine.
+func (p *Prog) calleeName(from int, m int, t int, v string) string {
+	if p.Tasks[t].Run == "when_changed" {
+		return fmt.Sprintf("t%d:w-K%dv%s", t, t, v)
+	}
+	return fmt.Sprintf("t%d:w-%s.%d", t, p.selfPathExpr(from), m)
 }
 
 // the path expression a task uses for itself and for its children
@@ -339,7 +364,7 @@ func (p *Prog) callYAML(from int, m int, c Call) map[string]any {
 		v = fmt.Sprint(*c.Var)
 	}
 	return map[string]any{
-		"task": fmt.Sprintf("t%d:w-%s.%d", c.Task, p.selfPathExpr(from), m),
+		"task": p.calleeName(from, m, c.Task, v),
 		"vars": map[string]any{"V": v},
 	}
 }
@@ -354,9 +379,8 @@ func (p *Prog) Taskfile() map[string]any {
 				// the value reaches the commands only through a dynamic variable of the task itself
 				y["vars"] = map[string]any{"W": map[string]any{"sh": "echo {{.V}}"}}
 				vexp = "{{.W}}"
-			} else {
-				// make the variable reach a hashed field so that the dedup key is exactly (task, V)
-				y["desc"] = "V={{.V}}"
+			} else if p.viaEnv(i) {
+				y["env"] = map[string]any{"E": "{{.V}}"}
 			}
 		}
 		var deps []any
@@ -373,6 +397,9 @@ func (p *Prog) Taskfile() map[string]any {
 			switch c.Kind {
 			case "shell":
 				s := fmt.Sprintf("printf '%%s\\n' 'P|%s|%d|%s'", self, k, vexp)
+				if p.viaEnv(i) {
+					s = fmt.Sprintf("printf '%%s\\n' \"P|K%dv$E|%d|$E\"", i, k)
+				}
 				if c.Exit != 0 {
 					s += fmt.Sprintf("; exit %d", c.Exit)
 				}
@@ -384,7 +411,11 @@ func (p *Prog) Taskfile() map[string]any {
 			case "call":
 				cmds = append(cmds, p.callYAML(i, m, *c.Call))
 			case "dshell":
-				cmds = append(cmds, map[string]any{"defer": fmt.Sprintf("printf '%%s\\n' 'D|%s|%d|{{.V}}|{{.EXIT_CODE}}'", self, k)})
+				if p.viaEnv(i) {
+					cmds = append(cmds, map[string]any{"defer": fmt.Sprintf("printf '%%s\\n' \"D|K%dv$E|%d|$E|{{.EXIT_CODE}}\"", i, k)})
+				} else {
+					cmds = append(cmds, map[string]any{"defer": fmt.Sprintf("printf '%%s\\n' 'D|%s|%d|{{.V}}|{{.EXIT_CODE}}'", self, k)})
+				}
 			case "dcall":
 				cmds = append(cmds, map[string]any{"defer": p.callYAML(i, m, *c.Call)})
 			}
@@ -438,7 +469,11 @@ func pathStr(path []int) string {
 }
 
 func (p *Prog) rootName(k int) string {
-	return fmt.Sprintf("t%d:w-%d", p.Cfg.Roots[k].Task, k)
+	rc := p.Cfg.Roots[k]
+	if p.Tasks[rc.Task].Run == "when_changed" {
+		return fmt.Sprintf("t%d:w-K%dv%d", rc.Task, rc.Task, *rc.Var)
+	}
+	return fmt.Sprintf("t%d:w-%d", rc.Task, k)
 }
 
 // cycleThroughDedup reports whether some cycle of the call graph contains a run: once / when_changed task.
